@@ -81,6 +81,9 @@ def unwrapped(a):
     return a
 
 
+from mtc10_other import moved_function      # used to be defined here; now lives in another module and is re-imported
+
+
 now_closure = outer()             # a name that used to be a traced function and is now bound to a function made by another function
 
 
@@ -156,6 +159,15 @@ def row_for(kind, mod, n=0):
         return (mod, "now_builtin", '{"a": %s}' % t, t, None)
     if kind == "now_bound_builtin":
         return (mod, "now_bound_builtin", '{"a": %s}' % t, None, None)
+    if kind == "ret_unexported_builtin":      # a function that returned d.keys(): the class says it lives in builtins
+        return (mod, "ok1", '{"a": %s}' % t, cls_json("builtins", "dict_keys"), None)
+    if kind == "arg_unexported_builtin":      # a module object passed as an argument
+        return (mod, "ok2", '{"a": %s, "b": %s}' % (cls_json("builtins", "module"), t), t, None)
+    if kind == "moved_function":
+        return (mod, "moved_function", '{"a": %s}' % t, t, None)
+    if kind == "td_field_class_removed":
+        return (mod, "ok1", '{"a": {"module": "monkeytype.typing", "qualname": "DUMMY_NAME", "is_typed_dict": true, "elem_types": '
+                            '{"sku": %s, "coupon": %s}}}' % (t, cls_json(mod, "GoneClass")), t, None)
     if kind == "now_closure":
         return (mod, "now_closure", '{"x": %s}' % t, t, None)
     if kind == "prop_getter_nonfunction":
@@ -169,12 +181,13 @@ def row_for(kind, mod, n=0):
     raise ValueError(kind)
 
 
-DECODABLE = {"valid", "valid2", "valid_method", "renamed_param"}
+DECODABLE = {"valid", "valid2", "valid_method", "renamed_param", "moved_function"}
 KINDS = ["valid", "valid2", "valid_method", "renamed_param", "function_removed", "arg_class_removed", "return_class_removed",
          "yield_class_removed", "class_module_removed", "local_scope", "now_nonfunction", "now_class", "now_settable_property",
          "class_now_nontype", "class_now_nontype_ret", "class_module_removed_ret", "arg_class_removed_2",
          "arg_module_removed_name_prefix", "dunder_removed", "dunder_removed_2", "elem_class_now_nontype", "elem_class_removed",
-         "elem_class_now_nontype_ret", "nowraps", "now_closure", "prop_getter_nonfunction"]
+         "elem_class_now_nontype_ret", "nowraps", "now_closure", "prop_getter_nonfunction",
+         "ret_unexported_builtin", "arg_unexported_builtin", "moved_function", "td_field_class_removed"]
 
 _W = {}
 
@@ -187,6 +200,8 @@ def _setup():
     sys.path.insert(0, d)
     with open(os.path.join(d, "mtc10_custom_store.py"), "w") as fh:
         fh.write(CUSTOM_STORE_SRC)
+    with open(os.path.join(d, "mtc10_other.py"), "w") as fh:
+        fh.write("def moved_function(a):\n    return a\n")
     _W.update(dir=d, n=0)
     return _W
 
@@ -409,6 +424,17 @@ def gen_cases(tier, seed):
             cases.append({"kinds": ks, "cmd": cmd, "verbose": cmd == "apply"})
     plan.append({"family": "a traced name now bound to a closure made by another function / a property whose getter is not a function",
                  "cases": len(cases) - n0})
+    # every decodable row now belongs to ANOTHER module (the function moved and is re-imported): no stub for the module asked
+    # for, yet the stale rows are counted and reported all the same
+    n0 = len(cases)
+    for ks in (["moved_function"], ["moved_function", "function_removed"], ["arg_class_removed", "moved_function", "now_class"],
+               ["moved_function", "valid"], ["valid2", "moved_function", "return_class_removed"],
+               ["td_field_class_removed"], ["td_field_class_removed", "valid"], ["ret_unexported_builtin", "valid2"], ["arg_unexported_builtin"]):
+        for cmd in ("stub", "apply"):
+            for verbose in (False, True):
+                cases.append({"kinds": ks, "cmd": cmd, "verbose": verbose})
+    plan.append({"family": "rows that decode into another module's function; stale class inside a TypedDict field; classes of "
+                           "builtins that builtins does not export", "cases": len(cases) - n0})
     # names that are no longer Python functions but C builtins (they cannot be what was traced)
     n0 = len(cases)
     for ks in (["now_builtin"], ["valid", "now_builtin"], ["now_bound_builtin", "valid2"], ["now_bound_builtin"]):
